@@ -94,10 +94,23 @@ class Func(object):
             for b in cfg["blocks"]:
                 self.blocks[b["id"]] = b
                 self.preds.setdefault(b["id"], [])
+            wrap_id = (max(self.nodes) + 1) if self.nodes else 1
             for b in cfg["blocks"]:
                 if b.get("noret"):
                     b["s"] = []
                 for i, e in enumerate(b["e"]):
+                    n0 = self.nodes.get(e)
+                    if n0 is not None and n0["k"] == "Var":
+                        # one declarator of a multi-declarator statement (the CFG builder splits `int a = 1, b = 2;`):
+                        # wrap it into a single-declarator DeclStmt so that every transfer function sees the initialisation
+                        w = {"id": wrap_id, "k": "DeclStmt", "c": [n0], "l": n0.get("l"), "synthetic": True}
+                        if "fl" in n0:
+                            w["fl"] = n0["fl"]
+                        self.nodes[wrap_id] = w
+                        self.parent[wrap_id] = self.parent.get(self.parent.get(e))
+                        b["e"][i] = wrap_id
+                        e = wrap_id
+                        wrap_id += 1
                     self.elem_block[e] = (b["id"], i)
                 for s in b["s"]:
                     if s is not None:
